@@ -213,11 +213,24 @@ def run_case(spec):
                     counters['abort_runs'] = counters.get('abort_runs', 0) + 1
                     if os.path.exists(outp):
                         viol.append({'kind': 'fasta-written-despite-abort', 'msg': f'fault {tag}'})
-        # ---- CLI with ppft workers: failpoint through the environment
+        # ---- CLI with ppft workers: failpoints through the environment; 1-2 failing units, preferably not in the last
+        # transcript (so that with --threads > 1 the failure is not the last result of its batch); exit status, FASTA and the
+        # printed tally are compared with the in-process run / the expected counts
         if spec.get('cli'):
-            u = rng.choice(units)
-            key = {'main': 'main', 'fusion': 'fusion', 'circ': 'circ'}[u[0]] + ':' + u[1]
-            for t in (1, 2):
+            import re as _re
+            tx_order = list(dict.fromkeys(tx_of[u] for u in units))
+            early = [u for u in units if tx_of[u] != tx_order[-1]] or units
+            Fc = {rng.choice(early)}
+            if len(units) > 1 and rng.random() < 0.6:
+                Fc.add(rng.choice(units))
+            key = ','.join(u[0] + ':' + u[1] for u in sorted(Fc))
+            want = {'Variant': len({tx_of[u] for u in Fc if u[0] == 'main'}),
+                    'Fusion': len({tx_of[u] for u in Fc if u[0] == 'fusion'}),
+                    'circRNA': len({tx_of[u] for u in Fc if u[0] == 'circ'})}
+            with Recorder(Fc) as rr:
+                fa2, _ = cvmon.execute(case, wd, paths, out='cmp.fasta', skip_failed=True)
+            ref_out = {s for _, s in fa2}
+            for t in spec.get('cli_threads', (1, 2, 3)):
                 outp = f'{wd}/cli{t}.fasta'
                 argv = ['callVariant', '-i'] + paths + ['-g', f'{wd}/genome.fasta', '-a', f'{wd}/annotation.gtf', '-p',
                                                          f'{wd}/proteome.fasta', '-o', outp, '--threads', str(t), '--skip-failed',
@@ -225,16 +238,23 @@ def run_case(spec):
                                                          '--cleavage-exception', 'None']
                 rc, so, se = common.run_cli(argv, timeout=600, guard=True, extra_env={'MOPEPGEN_VERIF_FAIL': key})
                 counters['cli_fault_runs'] = counters.get('cli_fault_runs', 0) + 1
+                if rc is None:
+                    continue
                 if rc != 0:
-                    viol.append({'kind': 'cli-skip-failed-nonzero-exit', 'msg': f'--threads {t} fault {key}: exit {rc}: {se[-300:]}'})
+                    viol.append({'kind': 'cli-skip-failed-nonzero-exit', 'msg': f'--threads {t} faults {key}: exit {rc}: {se[-300:]}'})
                     continue
                 got = {s for _, s in drivers.read_fasta(outp)}
-                with Recorder({u}) as rr:
-                    fa2, _ = cvmon.execute(case, wd, paths, out='cmp.fasta', skip_failed=True)
-                if got != {s for _, s in fa2}:
-                    viol.append({'kind': 'cli-fault-output-differs', 'msg': f'--threads {t} fault {key}: CLI output differs from the in-process run'})
-                if 'failed' not in (so + se):
-                    pass
+                if got != ref_out:
+                    viol.append({'kind': 'cli-fault-output-differs', 'msg': f'--threads {t} faults {key}: CLI output differs from the in-process run'})
+                tally = {}
+                for name in ('Variant', 'Fusion', 'circRNA'):
+                    m = _re.search(name + r' peptides: (\d+)', so + se)
+                    if m:
+                        tally[name] = int(m.group(1))
+                if len(tally) == 3:
+                    counters['cli_tally_checks'] = counters.get('cli_tally_checks', 0) + 1
+                    if tally != want:
+                        viol.append({'kind': 'tally-wrong', 'msg': f'--threads {t} faults {key} (transcript order {tx_order}): printed tally {tally} expected {want}'})
         feat = (len(units), sum(u[0] == 'main' for u in units), sum(u[0] == 'fusion' for u in units),
                 sum(u[0] == 'circ' for u in units), len(fault_sets), bool(spec.get('cli')))
         return {'nontrivial': True, 'feature': feat, 'violations': viol[:12], 'counters': counters,
@@ -358,7 +378,8 @@ def check(rep, tier, seed, specs=None, n_override=None):
                 'fault and every pair (triples in thorough; capped per case): with --skip-failed the run must complete, the tally must count the '
                 'failing transcripts per kind, every surviving unit must return the same peptides, surviving peptides must be present, peptides only '
                 'the failed units produce must be absent; without --skip-failed every single fault must abort and leave no FASTA. A sample of faults '
-                'is repeated through the CLI with --threads 1 and 2 (failpoint via environment inside ppft workers). '
+                '(1-2 failing units, preferably not in the last transcript) is repeated through the CLI with --threads 1, 2 and 3 (failpoints via '
+                'environment inside ppft workers): exit status, FASTA and the printed tally are checked. '
                 'Natural data faults: one transcript gets a record that invalidates its whole variant series (small variant beyond the gene end; '
                 'fusion whose acceptor position is beyond the acceptor gene): with --skip-failed the run completes, tallies one invalid transcript, '
                 'never calls its units, leaves units not involving it unchanged; without --skip-failed it aborts and writes no FASTA. '
@@ -366,6 +387,6 @@ def check(rep, tier, seed, specs=None, n_override=None):
     rep.absorb(results, lost)
     rep.exhaustive = True
     rep.extra['exhaustive_scope'] = 'all single faults of every generated case (and all pairs up to the per-case cap)'
-    for k in ('fault_runs', 'abort_runs', 'cli_fault_runs', 'natural_runs', 'natural_abort_runs'):
+    for k in ('fault_runs', 'abort_runs', 'cli_fault_runs', 'cli_tally_checks', 'natural_runs', 'natural_abort_runs'):
         if not rep.counters.get(k):
             rep.inconclusive.append(f'monitor {k} had zero evaluations')
